@@ -208,7 +208,11 @@ def model_load_network(ctx, a, res, rec):
     try:
         if len(res.branches) != len(exp):
             return _viol("wrong-branch-count", f"{len(res.branches)} != {len(exp)}")
-        for b, (n1, n2, i, q) in zip(res.branches, exp):
+        by_id = {b.id: b for b in res.branches}          # C17 does not state an order of the branches
+        for (n1, n2, i, q) in exp:
+            b = by_id.get(i)
+            if b is None:
+                return _viol("wrong-identity", f"no branch with id {i!r} (got {sorted(map(str, by_id))})")
             if (b.node1, b.node2, b.id) != (n1, n2, i):
                 return _viol("wrong-identity", f"{(b.node1, b.node2, b.id)} != {(n1, n2, i)}")
             for attr, v in q.items():
@@ -271,7 +275,8 @@ def _check_component(c, exp):
         return _viol("wrong-type", f"{type(c).__name__}: {type(e).__name__}: {e}")
     if ident != (t, i, nodes):
         return _viol("wrong-identity", f"{ident} != {(t, i, nodes)}")
-    d = _same_doc(value, val, f"{i}.value")
+    # the documented value of the kind must be there, exactly; additional derived entries are not forbidden by C17
+    d = _same_doc({k: v for k, v in value.items() if k in val}, val, f"{i}.value")
     if d:
         return _viol("wrong-value", d)
     return None
